@@ -954,7 +954,9 @@ class Impl:
                 raise
             except Exception as e:  # noqa: B902
                 res = 'err:rejected'
-                self.last_exc = e
+                # keep only the text: the traceback would keep the frames (and
+                # the Function objects in them) alive
+                self.last_exc = repr(e)
             tape = [t for t in _Rec.events if t is not None]
             if isinstance(m, str) and m.startswith('m'):
                 tape = list(_Rec.malloc)
